@@ -390,7 +390,13 @@ func (s *OuterJoin) receiveRecord(ctx ExecutionContext, produce ProduceFn, myRec
 						copy(outputValues, subitemTyped.GroupKey)
 					}
 
-					if err := produce(ProduceFromExecutionContext(ctx), NewRecord(outputValues, true, subitemTyped.EventTimes[i])); err != nil {
+					// The change happens now, so it mustn't be stamped with an event time older than the record causing it.
+					eventTime := record.EventTime
+					if subitemTyped.EventTimes[i].After(eventTime) {
+						eventTime = subitemTyped.EventTimes[i]
+					}
+
+					if err := produce(ProduceFromExecutionContext(ctx), NewRecord(outputValues, true, eventTime)); err != nil {
 						outErr = fmt.Errorf("couldn't produce: %w", err)
 						return false
 					}
@@ -447,7 +453,13 @@ func (s *OuterJoin) receiveRecord(ctx ExecutionContext, produce ProduceFn, myRec
 						copy(outputValues, subitemTyped.GroupKey)
 					}
 
-					if err := produce(ProduceFromExecutionContext(ctx), NewRecord(outputValues, false, subitemTyped.EventTimes[i])); err != nil {
+					// The change happens now, so it mustn't be stamped with an event time older than the record causing it.
+					eventTime := record.EventTime
+					if subitemTyped.EventTimes[i].After(eventTime) {
+						eventTime = subitemTyped.EventTimes[i]
+					}
+
+					if err := produce(ProduceFromExecutionContext(ctx), NewRecord(outputValues, false, eventTime)); err != nil {
 						outErr = fmt.Errorf("couldn't produce: %w", err)
 						return false
 					}
